@@ -114,6 +114,16 @@ def run(ctx: Ctx) -> int:
     ctx.trusted_base.append(f"stock implicit resolver table read from {stock_path} ({len(stock)} entries)")
     gl = ctx.func("_loaders_dumpers:get_yaml_default_loader")
     led = yamlmodel.extract_table_edits(ld, gl)
+    # a class name looked up with getattr(yaml, "<name>", <fallback>) has to be a name PyYAML defines: a misspelt name
+    # silently selects the fallback (the pure-Python loader, which reads some documents differently from libyaml's)
+    ynames = yamlmodel.yaml_class_names()
+    for fname_ in ("get_yaml_default_loader", "get_yaml_default_dumper"):
+        fn__ = ctx.func(f"_loaders_dumpers:{fname_}")
+        for c_ in [x for x in ast.walk(fn__) if isinstance(x, ast.Call) and isinstance(x.func, ast.Name) and x.func.id == "getattr" and len(x.args) >= 2 and dotted(x.args[0]) == "yaml" and const_str(x.args[1])]:
+            nm_ = const_str(c_.args[1])
+            ok_ = nm_ in ynames
+            ctx.oblige("C01.a", ok_, c_, f"`{nm_}` is a class PyYAML defines" if ok_ else f"getattr(yaml, {nm_!r}, ...) names no PyYAML class: the fallback is used silently (pure-Python scanner instead of libyaml: tab-indented JSON is rejected in yaml mode but read in json mode)", fn=fn__)
+    led.bases = [b for b in led.bases if b in ynames]
     for b in led.bases:
         if not yamlmodel.class_uses_stock_resolver(b):
             raise AnalysisError(f"loader base class yaml.{b} does not use the stock Resolver")
@@ -139,6 +149,10 @@ def run(ctx: Ctx) -> int:
                 raise AnalysisError(f"dumper base class yaml.{b} does not use the stock Resolver")
         dumper_table = yamlmodel.apply_edits(stock, ded)
         dumper_desc = f"{dk.func.id}(): stock - {ded.removed} + {[e[0] for e in ded.added]}"
+    elif dk is not None and dotted(dk) in ("yaml.SafeDumper", "yaml.CSafeDumper"):
+        dumper_table = list(stock)
+        dumper_desc = f"stock {dotted(dk)}"
+        ded = None
     else:
         raise AnalysisError(f"cannot determine the dumper class used by yaml_dump: {src(dc[0])}")
     ctx.floor("C01.a-loader-table", len(loader_table), 6)
